@@ -245,6 +245,15 @@ func (c *octx) c18Cancelled() *eng.Violation {
 	return nil
 }
 
+func hasBatch(sc *Scn) bool {
+	for _, n := range sc.Nodes {
+		if n.Kind == "batch" {
+			return true
+		}
+	}
+	return false
+}
+
 func first(vs ...*eng.Violation) *eng.Violation {
 	for _, v := range vs {
 		if v != nil {
@@ -283,6 +292,9 @@ func oracle(c *octx) *eng.Violation {
 	case "C11":
 		return c.batchCancel()
 	case "C17":
+		if c.sc.Ctx.Kind == "cancel" && hasBatch(c.sc) {
+			return first(c.postAfterItems(), c.slotsHonest())
+		}
 		return first(c.mainEq("payload", projC17, false), c.lanesEq("item-payload", projC17, false), c.slots("slot"))
 	case "C18":
 		if c.sc.Ctx.Kind == "cancel" {
